@@ -4,39 +4,43 @@
      P id pess(0/1)
      E i set k | E i ins k | E i aggstart | aggretry | aggcancel | aggdone | rollback
      E i set k | E i del k | E i ins k
-     E i lock ks rv ce loie f early locked absent lwc res expired   (ks/locked/absent: comma lists of hex ints, "-" = empty)
+     E i lock ks rv ce loie f early locked absent lwc res expired   (ks/locked/absent: comma lists of hex ints, "-" = empty; early is ignored: predicted)
      E i commit mode(2pc|async|1pc) prewritten sync res(ok|pfail|cfail) unnecessary
      D          drain all pending tasks      D lost   ... except for the keys whose release never reached the store
      E i rollback lost     Rollback whose synchronous release of the keys lost did not complete
-   output: R id i flags cnt agg cur prev rk valid ntasks store x(X = the expiry input mattered) primary keepalive(U|C|bound key)      and after D:  F id store *)
+   output: R id i flags cnt agg cur prev rk valid ntasks store x(X = the expiry input mattered) primary keepalive(U|C|bound key) early(Y = the model predicts the key-exists error of the pre-loop)      and after D:  F id store *)
 let keys_of_str s = if s = "-" || s = "" then [] else List.map n_of_hex (String.split_on_char ',' s)
 let str_of_keys l = if l = [] then "-" else String.concat "," (List.sort compare (List.map hex_of_n l))
 let b s = s = "1"
 let fail_of = function
   | "ok" -> None | "conflict" -> Some FConflict | "exists" -> Some FExists | "deadlock" -> Some FDeadlock
   | "timeout" -> Some FTimeout | "nowait" -> Some FNoWait | _ -> Some FOther
-let out ?(x = "-") id i (s : st) rk =
+let out ?(x = "-") ?(early = "-") id i (s : st) rk =
   let (a, c, p) = match s.agg with
     | Some a -> ("1", List.map fst a.cur, List.map fst a.prev) | None -> ("0", [], []) in
-  Printf.printf "R\t%s\t%s\t%s\t%d\t%s\t%s\t%s\t%s\t%s\t%d\t%s\t%s\t%s\t%s\n" id i (str_of_keys s.flags) (int_of_z s.cnt) a
+  Printf.printf "R\t%s\t%s\t%s\t%d\t%s\t%s\t%s\t%s\t%s\t%d\t%s\t%s\t%s\t%s\t%s\n" id i (str_of_keys s.flags) (int_of_z s.cnt) a
     (str_of_keys c) (str_of_keys p) rk (if s.valid then "1" else "0") (List.length s.tasks)
     (str_of_keys (List.map fst s.store)) x
     (match s.primary with Some p -> hex_of_n p | None -> "-")
-    (match s.ka with KUninit -> "U" | KClosed -> "C" | KRunning k -> hex_of_n k)
+    (match s.ka with KUninit -> "U" | KClosed -> "C" | KRunning k -> hex_of_n k) early
 let () =
   let cur = ref (init true) and id = ref "" in
   read_lines (fun line ->
     try
       match split_tab line with
       | ["P"; i; p] -> id := i; cur := init (b p)
-      | "E" :: i :: "lock" :: ks :: rv :: ce :: loie :: f :: early :: locked :: absent :: lwc :: res :: rest ->
+      | "E" :: i :: "lock" :: ks :: rv :: ce :: loie :: f :: _observed_early :: locked :: absent :: lwc :: res :: rest ->
         let ex = (match rest with e :: _ -> b e | [] -> false) in
-        let o = { lo_early = b early; lo_expired = ex; lo_locked = keys_of_str locked; lo_absent = keys_of_str absent;
+        let o = { lo_expired = ex; lo_locked = keys_of_str locked; lo_absent = keys_of_str absent;
                   lo_lwc = n_of_hex lwc; lo_res = fail_of res } in
         let (s', rk) = lock_keys_full (keys_of_str ks) (b rv) (b ce) (b loie) (n_of_hex f) o !cur in
         (* did the expiry input matter? (the same call with the other value sends other keys) *)
         let (_, rk') = lock_keys_full (keys_of_str ks) (b rv) (b ce) (b loie) (n_of_hex f) { o with lo_expired = not ex } !cur in
-        cur := s'; out ~x:(if rk <> rk' then "X" else "-") !id i s' (str_of_keys rk)
+        (* the model predicts the key-exists error of the pre-loop (no request, nothing changes) *)
+        let ks' = keys_of_str ks in
+        let s1 = exit_agg ks' !cur in
+        let early = if early_exists s1 ks' then "Y" else "N" in
+        cur := s'; out ~x:(if rk <> rk' then "X" else "-") ~early !id i s' (str_of_keys rk)
       | "E" :: i :: "commit" :: mode :: pw :: sync :: res :: rest ->
         let o = { co_mode = (match mode with "async" -> MAsync | "1pc" -> M1PC | _ -> M2PC);
                   co_prewritten = keys_of_str pw; co_sync = keys_of_str sync;
@@ -48,6 +52,8 @@ let () =
       | "E" :: i :: op :: rest ->
         let e = match op, rest with
           | "set", k :: _ -> ESet (n_of_hex k) | "del", k :: _ -> EDel (n_of_hex k) | "ins", k :: _ -> EInsert (n_of_hex k)
+          | "mark", k :: _ -> EMark (n_of_hex k)
+          | "unmark", k :: _ -> EUnmark (n_of_hex k)
           | "aggstart", _ -> EAggStart | "aggretry", _ -> EAggRetry | "aggcancel", _ -> EAggCancel
           | "aggdone", _ -> EAggDone | "rollback", _ -> ERollback | "nop", _ -> ERun (nat_of_int 1000)
           | _ -> failwith ("bad op " ^ op) in
